@@ -236,6 +236,16 @@ class Check:
                     in_ax = False
         self.cov["discharged"] = len(theorems)
         self.notes["print_assumptions"] = {"closed_theorems": closed, "axioms": sorted(axioms)}
+        if self.tier == "thorough" and os.environ.get("VERIF_NO_COQCHK") != "1":
+            # independent re-check of the compiled files and everything they depend on
+            mod = "Verif." + props_file.replace(".v", "").replace("/", ".")
+            rc2, out2, err2 = sh(["coqchk", "-o", "-silent", "-Q", ".", "Verif", mod], cwd=COQ, timeout=3000)
+            txt = out2 + err2
+            ax = re.findall(r"^\s+([A-Za-z_][\w.']*)\s*$", txt.split("Axioms:")[-1], flags=re.M) if "Axioms:" in txt else []
+            self.notes["coqchk"] = {"rc": rc2, "axioms_of_all_loaded_libraries": ax[:60],
+                                    "tail": txt.strip().splitlines()[-6:]}
+            if rc2 != 0:
+                self.broke("proof", "coqchk " + mod, txt[-1500:])
         tb = ["Coq 8.16.1 kernel (coqc, full .vo build; vm_compute used, native_compute not used)"]
         if axioms:
             tb.append("axioms reported by Print Assumptions: " + ", ".join(sorted(axioms)))
